@@ -99,8 +99,9 @@ end
 section
 variable {reg : List Check.Template} {params : List Bytes}
 
-theorem FramedKeys.keys {m : C Unit} {ks : List Bytes} (h : FramedKeys params m ks) :
-    Framed m (fun env => KeysBound params env ks) (fun env => refsKeys params env ks) [] := h
+theorem FramedKeys.keys {m : C Unit} {ks : List Bytes} {ls : List LoopOcc}
+    (h : FramedKeys params m ks ls) :
+    Framed m (fun env => ExprsOk params env ks ls) (fun env => refsKeys params env ks) [] := h
 
 /-- a closed construct inside `inScope`: nothing it declares can be used -/
 theorem Framed.scopeCmd {m : C Unit} {c : Cmd}
